@@ -220,7 +220,7 @@ class C06(Monitor):
             if x['type'] == 'TooManyStreamsError':
                 return
             pw, pd = a.get('pw'), a.get('pd')
-            if (pw is not None and not (1 <= pw <= 256)) or pd == sid:
+            if (pw is not None and not (1 <= pw <= 256)) or pd == sid or (pd is not None and not (0 <= pd <= 2 ** 31 - 1)):
                 return
         if op in ('send_data',):
             pad = a.get('pad')
